@@ -247,6 +247,40 @@ def run(ck, facts, tier):
         else:
             ck.violation(R, "fmt:collect+stubs+items", d.where(), "Display must write collect_unrecorded_ids stubs and the recorded items")
 
+    R = "C23.ONE-NAME-TABLE"
+    ck.rule(R, "K4 (who-may-construct): one log has one table of printed names - WriterState::new (which creates the IdAliasStore that "
+               "tells apart items with the same name, `Assoc` / `Assoc_1`) is called only by LoggingRustIrDatabase::new inside the "
+               "library crates, and write_stub_items derives its state from the caller's with wrap_db_ref (sharing that table): a stub "
+               "section printed under a fresh state numbers equal names independently of the recorded section, and the printed "
+               "program refers to names it never declares")
+    from core import CallGraph
+    cgw = CallGraph(facts, ["chalk_solve", "chalk_engine", "chalk_recursive", "chalk_integration", "chalk"])
+    mk = cgw.callers_of(lambda k: k.endswith("display::state::WriterState::new") or k.endswith("display::state::WriterState<I, DB, P>::new"))
+    allowed = ("chalk_solve::logging_db::LoggingRustIrDatabase::new",)
+    ck.floor(R, "WriterState::new-callers", len(mk), 1)
+    for k, blk, t in mk:
+        base = k.split("::{")[0]
+        if base in allowed:
+            ck.ok(R, "WriterState::new<-%s" % short(base))
+        else:
+            ck.violation(R, "WriterState::new<-%s" % short(base), "", "a second writer state (its own name table) is created here")
+    wsi = need_body(ck, facts, R, "chalk_solve::display::write_stub_items")
+    if wsi:
+        if has_call(facts.thir("chalk_solve::display::write_stub_items"), "wrap_db_ref") and has_call(wsi.thir, "write_items"):
+            ck.ok(R, "write_stub_items:state-derived-with-wrap_db_ref")
+        else:
+            ck.violation(R, "write_stub_items:state-derived-with-wrap_db_ref", wsi.where(), "the stub pass must print through a state derived "
+                         "from the caller's (wrap_db_ref), so that both passes draw names from one table")
+    wdr = need_body(ck, facts, R, "chalk_solve::display::state::WriterState::wrap_db_ref")
+    if wdr:
+        th = facts.thir("chalk_solve::display::state::WriterState::wrap_db_ref")
+        fresh = has_call(th, "Default::default") or has_call(th, "IdAliasStore::default") or has_call(th, "WriterState::new")
+        shares = has_call(th, "Clone::clone") or has_call(th, "Arc::clone") or has_call(th, "clone")
+        if shares and not fresh:
+            ck.ok(R, "wrap_db_ref:shares-the-alias-store")
+        else:
+            ck.violation(R, "wrap_db_ref:shares-the-alias-store", wdr.where(), "wrap_db_ref must hand on the existing alias store (clone of the shared handle), not a new one")
+
     R = "C23.IDCOLLECT-ALL"
     ck.rule(R, "K1: IdCollector (finds every item id referenced by a recorded item, to stub it) never aborts its traversal (no visit method returns ControlFlow::Break)")
     collector_never_breaks(ck, R, facts, "chalk_solve", "<chalk_solve::logging_db::id_collector::IdCollector as chalk_ir::visit::TypeVisitor>::", "IdCollector", 1)
